@@ -8,6 +8,7 @@ import (
 	"flag"
 	"fmt"
 	"io"
+	"math"
 	"math/rand"
 	"net/http"
 	"runtime"
@@ -152,6 +153,15 @@ func (b *scBeh) wantData(style string, i int) (string, bool) {
 	return "", false
 }
 
+// scMax maps the spec's "no limit to speak of" (2*10^9: TLC's integers are 32 bit) to the largest int, the customary way
+// of switching the limit off
+func scMax(m int) int {
+	if m >= 2000000000 {
+		return math.MaxInt
+	}
+	return m
+}
+
 // countingReader hands out the stream in chunks and checks, at every Read call, how far the parser has
 // read beyond the end of the last event it delivered.
 type countingReader struct {
@@ -260,7 +270,7 @@ func cmdScan(args []string) {
 				case "read":
 					var cfg *sse.ReadConfig
 					if b.Cfg.Max > 0 {
-						cfg = &sse.ReadConfig{MaxEventSize: b.Cfg.Max}
+						cfg = &sse.ReadConfig{MaxEventSize: scMax(b.Cfg.Max)}
 					}
 					func() {
 						defer func() { pn = recover() }()
@@ -279,7 +289,7 @@ func cmdScan(args []string) {
 					if b.Cfg.InitCap > 0 {
 						buf = make([]byte, 0, b.Cfg.InitCap)
 					}
-					co := runConnCount(rd, buf, b.Cfg.Max, &delivered)
+					co := runConnCount(rd, buf, scMax(b.Cfg.Max), &delivered)
 					evs, err, pn = co.evs, co.err, co.panicked
 				}
 				res.eval(1)
